@@ -290,3 +290,35 @@ Proof.
 Qed.
 Lemma string_of_bytes_of_string : forall s, string_of_bytes (bytes_of_string s) = s.
 Proof. intro s. unfold string_of_bytes, bytes_of_string. apply string_of_list_byte_of_string. Qed.
+
+(* ---------- plain types: no "m" and no "o" anywhere ---------- *)
+Fixpoint plain (t : ty) : bool :=
+  match t with
+  | TS SValue | TS SObject => false
+  | TS _ => true
+  | TList t' => plain t'
+  | TMap k v => plain k && plain v
+  | TTuple ts => forallb plain ts
+  | TStruct _ fs => forallb (fun f => plain (snd f)) fs
+  end.
+
+Lemma plain_ObjectReference : plain ty_ObjectReference = true.
+Proof. reflexivity. Qed.
+Lemma wfz_ObjectReference : wfz ty_ObjectReference = true.
+Proof. reflexivity. Qed.
+Lemma good_ObjectReference : good_ty ty_ObjectReference = true.
+Proof. vm_compute. reflexivity. Qed.
+
+Lemma min_width_expand1 : forall t, min_width (expand1 t) = min_width t.
+Proof. intro t. destruct t as [[]| | | |]; reflexivity. Qed.
+
+Lemma plain_expand1 : forall t, plain t = true -> expand1 t = t.
+Proof. intros t H. destruct t as [[]| | | |]; try reflexivity. cbn in H; discriminate. Qed.
+
+(* Forall2 over a typed tuple against forallb of a property of the types *)
+Lemma forallb_Forall2_r : forall {A B} (q : B -> bool) (R : A -> B -> Prop) (l : list A) (ts : list B),
+  forallb q ts = true -> Forall2 R l ts -> Forall2 (fun x t => R x t /\ q t = true) l ts.
+Proof.
+  intros A B q R l ts Hq HF. induction HF as [|x t l' ts' Hx HF' IH]; [constructor|].
+  cbn [forallb] in Hq. apply andb_true_iff in Hq as [Hq1 Hq2]. constructor; [split; assumption|]. now apply IH.
+Qed.
